@@ -83,9 +83,6 @@ impl World {
     /// Drops made by plain (non-collector) destruction chains buffer their survivors.
     fn buf_model_pending_outside(&self) {
         let mut m = self.m.borrow_mut();
-        if m.collection_this_op {
-            return; // resolved by buf_model_collection_end
-        }
         let pend = std::mem::take(&mut m.buf_pending);
         m.dropped_this_pass.clear();
         for t in pend {
@@ -131,6 +128,17 @@ impl World {
                     let box_gone = st != BlockState::Live;
                     let should_be_free = box_gone && weak_n == 0;
                     let sst = alloc::block(ob.side_addr).state;
+                    if sst == BlockState::Live {
+                        let mut st = self.stats.borrow_mut();
+                        if box_gone {
+                            st.bump("side_record_outlived_box");
+                        } else if weak_n == 0 {
+                            st.bump("box_outlived_last_weak");
+                        }
+                        if weak_n >= 2 {
+                            st.bump("weak_handles_peak_ge2");
+                        }
+                    }
                     if !should_be_free && sst != BlockState::Live {
                         failure = Some(("O-SIDE.early", format!("the weak side record of object {} was released although {} Weak pointer(s) exist / the allocation is alive", i, weak_n)));
                         break;
@@ -267,6 +275,9 @@ impl World {
         }
         let mut m = self.m.borrow_mut();
         m.objs[o as usize].addr_samples += 1;
+        if m.objs[o as usize].downgraded_seen && m.objs[o as usize].processed_by_collection {
+            self.stats.borrow_mut().bump("address_sampled_across_downgrade_and_collection");
+        }
         true
     }
 
@@ -369,6 +380,16 @@ impl World {
                     return;
                 }
             }
+        }
+        {
+            let mut m = self.m.borrow_mut();
+            if set.len() >= 2 {
+                self.stats.borrow_mut().bump("buffer_ge2");
+            }
+            if !m.collection_this_op && m.prev_buffer.iter().any(|o| !set.contains(o)) {
+                self.stats.borrow_mut().bump("buffer_left_by_non_collection_op");
+            }
+            m.prev_buffer = set.clone();
         }
         let m = self.m.borrow();
         if m.buf_exact && m.faults_fired.is_empty() {
